@@ -46,7 +46,7 @@ from pathlib import Path
 sys.path.insert(0, str(Path(__file__).resolve().parent))
 from gen6 import run_solver, Z3, parse_values, log, ENV, VERIF, REPO, OUT, SCRATCH_ROOT, CACHE  # noqa
 
-TIERS = {"quick": (3, 3), "thorough": (4, 3)}         # (max chambers of the base, max sheets)
+TIERS = {"quick": (4, 3), "thorough": (5, 3)}         # (max chambers of the base, max sheets)
 CAP = {"quick": 120, "thorough": 900}
 BV = 3
 CVC5 = ["cvc5", "--lang", "smt2", "--produce-models"]
